@@ -577,6 +577,6 @@ def _rearrange_to_explicit_ode(y: np.ndarray, coeff_b: np.ndarray, fx: np.ndarra
     # Go through all rows except the last-element.
     for i, b in enumerate(coeff_b[:-1]):
         # array of size N: a_k(x_n) * (d^k y(x_n) / d x^k)
-        result -= b * y[i]
+        result = result - b * y[i]
 
     return result / coeff_b[-1]
